@@ -36,6 +36,9 @@ def fixed_cases(tier):
     step = 8 if tier == "quick" else 2
     for i, f in enumerate(files[::step]):
         out.append({"files": [f], "cseed": common.stable_seed(f), "fmt": ["vsg", "syntastic", "summary"][i % 3], "ap": i % 2 == 0})
+    for i, bad in enumerate(["garbage", "unterminated", "misconfigured"]):
+        for fmt in ("vsg", "syntastic", "summary"):
+            out.append({"files": files[i * 3 : i * 3 + 2], "cseed": i, "fmt": fmt, "ap": bool(i % 2), "bad": bad})
     return out
 
 
@@ -51,7 +54,7 @@ def strategy(tier):
             "cseed": st.integers(0, 2**31 - 1),
             "fmt": st.sampled_from(["vsg", "syntastic", "summary"]),
             "ap": st.booleans(),
-            "bad": st.sampled_from([None, None, None, "garbage", "unterminated"]),
+            "bad": st.sampled_from([None, None, None, "garbage", "unterminated", "misconfigured"]),
         }
     )
 
@@ -80,7 +83,7 @@ def run_case(case, tier):
     os.makedirs(d, exist_ok=True)
     rnd = random.Random(case["cseed"])
     texts = case.get("texts") or [corpus.text(f) for f in case["files"]]
-    if not case.get("texts") and case.get("bad"):
+    if not case.get("texts") and case.get("bad") in ("garbage", "unterminated"):
         texts = list(texts) + ["entity e is port (a : in bit; end entity;" if case["bad"] == "unterminated" else "this is ( not vhdl ;; end"]
     names = []
     for i, t in enumerate(texts):
@@ -101,6 +104,9 @@ def run_case(case, tier):
         except Exception:
             pass
         conf = make_conf(rnd, hint)
+        if case.get("bad") == "misconfigured":
+            # a configuration that cannot be applied (unknown rule): every file fails to configure
+            conf["rule"]["bogus_001"] = {"disable": True}
     concrete = {"texts": texts, "conf": conf, "fmt": case["fmt"], "ap": case["ap"], "cseed": case["cseed"]}
     js, ju, qr = os.path.join(d, "o.json"), os.path.join(d, "o.xml"), os.path.join(d, "o.qr.json")
     for p in (js, ju, qr):
